@@ -3,6 +3,7 @@ package bubble
 import (
 	"context"
 	"math/rand"
+	"os"
 	"strings"
 	"testing"
 
@@ -394,6 +395,25 @@ func TestMerge(t *testing.T) {
 	w := newTraceWriter(envStr("VH_OUT", "/tmp/merge.ndjson"))
 	n, reps := envInt("VH_N", 30), envInt("VH_REPS", 2)
 	runs, leaks := 0, 0
+	if f := os.Getenv("VH_SCHED"); f != "" { // schedules generated by TLC from MergeEnv.tla: replayed literally
+		var scheds []struct {
+			N     int
+			Steps []smStep
+		}
+		readJSON(t, f, &scheds)
+		for _, s := range scheds {
+			for rep := 0; rep < reps; rep++ {
+				evs, leak, msg := runStreamMerge(t, s.N, s.Steps)
+				if leak {
+					leaks++
+				}
+				writeRuns(w, &runs, evs, leak, msg, Ev{"kind": "stream", "n": s.N, "nd": 0})
+			}
+		}
+		w.close()
+		report(Ev{"engine": "bubble", "subject": "merge", "runs": runs, "events": w.n, "leaks": leaks, "source": "tlc-schedules"})
+		return
+	}
 	for i := 0; i < n; i++ {
 		arity := i % 6 // 0..5: the four code paths of chans.Merge
 		steps := genChansMerge(rng, arity)
